@@ -19,7 +19,7 @@ func C10(r *core.Run) {
 		"(R10.2) every bolt bucket lookup/creation/deletion by a request-supplied name is dominated by a rejecting comparison with the internal bookkeeping bucket name; " +
 		"(R10.3) every SingleBucketBackend method rejects other bucket names before touching the filesystem; (R10.4) every object-level method of MultiBucketBackend first establishes that the bucket directory exists; " +
 		"(R10.5) the metadata file name contains a hash over the unmodified key (distinct keys ⇒ distinct metadata files); (R10.6) routing passes bucket and key to the handlers unchanged; " +
-		"(R10.7) recursive removal (RemoveAll) is applied only to bucket-level paths, never to a path built from an object key."
+		"(R10.7) recursive removal (RemoveAll) is applied only to bucket-level paths, never to a path built from an object key; (R10.8) every bolt record operation is keyed by exactly the addressed name."
 	r.NotDecided = "non-interference as a whole-store statement, percent-encoding, very long segments, what the OS does with odd names, keys that are path-prefixes of other keys on the fs backends (a/b vs a/b/c is refused by the OS, not by a rule)"
 	ctx := oblig.NewCtx(r.P)
 	rule101(r, ctx)
@@ -29,6 +29,7 @@ func C10(r *core.Run) {
 	rule105(r)
 	rule106(r)
 	rule107(r)
+	rule108(r)
 }
 
 // fsCall: the call is a use of an afero filesystem (method of afero.Fs or an
@@ -532,4 +533,125 @@ func rule107(r *core.Run) {
 		r.Check(len(rm) == 1, "R10.7", key(fname(r, fn), "object removed with Remove"), r.P.Pos(fn.Pos()), "single non-recursive Remove", "deleteObjectLocked does not remove the object with exactly one non-recursive Fs.Remove")
 	}
 	r.Floor("R10.7", 5, "RemoveAll sites + object deletes")
+}
+
+// rule108 — bolt operations are keyed by exactly the addressed name.
+func rule108(r *core.Run) {
+	r.Rule("R10.8", "in s3bolt every (*bolt.Bucket).Put/Get/Delete is keyed by exactly []byte(<object-key parameter>) or bucketMetaKey(<bucket parameter>) — never by a cursor-derived or prefix-matched key (sole exception: ForceDeleteBucket emptying the very bucket it deletes); bucketMetaKey is a constant prefix plus the unmodified name")
+	n := 0
+	for _, fn := range r.P.FuncsOfPkg("s3bolt") {
+		f := fn
+		core.Instrs(fn, func(in ssa.Instruction) {
+			c, ok := in.(*ssa.Call)
+			if !ok {
+				return
+			}
+			cn := r.P.CalleeName(c)
+			if cn != "(*go.etcd.io/bbolt.Bucket).Put" && cn != "(*go.etcd.io/bbolt.Bucket).Get" && cn != "(*go.etcd.io/bbolt.Bucket).Delete" {
+				return
+			}
+			n++
+			k := c.Call.Args[1]
+			name := fname(r, f)
+			okKey := false
+			why := ""
+			switch kv := k.(type) {
+			case *ssa.Convert:
+				// []byte(param) — param of f or of the enclosing method, or a range element of a []string parameter
+				okKey = unmodifiedParamString(r, kv.X, 0)
+				why = "the key is a transformed value, not the object key itself"
+			case *ssa.Call:
+				if r.P.CalleeName(kv) == "s3bolt.bucketMetaKey" {
+					_, isParam := kv.Call.Args[0].(*ssa.Parameter)
+					okKey = isParam
+					why = "bucketMetaKey is not applied to the bucket parameter itself"
+				}
+			default:
+				why = "the key comes from a cursor / computed value"
+			}
+			if !okKey && strings.HasPrefix(name, "s3bolt.(*Backend).ForceDeleteBucket") && cn == "(*go.etcd.io/bbolt.Bucket).Delete" {
+				// reviewed: deletes every key of the bucket that is itself being deleted: receiver is tx.Bucket(nameBts) of the method's name parameter
+				rs := r.P.SliceOf(c.Call.Args[0], core.SliceOpts{Depth: -1})
+				ks := r.P.SliceOf(k, core.SliceOpts{Depth: -1})
+				if rs.Has("call:(*go.etcd.io/bbolt.Tx).Bucket") && ks.Has("call:(*go.etcd.io/bbolt.Bucket).Cursor") {
+					r.Held("R10.8", key(name, "empties the bucket being deleted"), pos(r, c), "reviewed: cursor over the bucket that is being force-deleted")
+					return
+				}
+			}
+			if why == "" {
+				why = "unrecognised key shape"
+			}
+			r.Check(okKey, "R10.8", key(name, strings.TrimPrefix(cn, "(*go.etcd.io/bbolt.Bucket)."), sprintf("#%d", n)), pos(r, c),
+				"keyed by exactly the addressed name", "a bolt record is addressed by something other than exactly the addressed name ("+why+"): an operation on one bucket/key can touch another's record")
+		})
+	}
+	r.Floor("R10.8", 6, "bolt record operations")
+	if fn := mustFunc(r, "s3bolt.bucketMetaKey"); fn != nil {
+		ok := false
+		for _, ret := range core.Returns(fn) {
+			if cv, isC := ret.Results[0].(*ssa.Convert); isC {
+				if b, isB := cv.X.(*ssa.BinOp); isB && b.Op == token.ADD {
+					if pre, isS := core.ConstString(b.X); isS && pre != "" && b.Y == ssa.Value(fn.Params[0]) {
+						ok = true
+					}
+				}
+			}
+		}
+		r.Check(ok, "R10.8", key(fname(r, fn), "constant prefix + name"), r.P.Pos(fn.Pos()), "\"<prefix>\"+name", "bucketMetaKey is no longer a constant prefix followed by the unmodified bucket name (distinct buckets may share a record)")
+	}
+}
+
+// unmodifiedParamString: v is a string parameter, or an element of a []string
+// parameter, carried around without any operation on its value (captured
+// variables and range indexing are followed; arithmetic, calls, slicing are not).
+func unmodifiedParamString(r *core.Run, v ssa.Value, d int) bool {
+	if d > 8 {
+		return false
+	}
+	switch x := v.(type) {
+	case *ssa.Parameter:
+		return true
+	case *ssa.FreeVar:
+		fn := x.Parent()
+		idx := -1
+		for i, fv := range fn.FreeVars {
+			if fv == x {
+				idx = i
+			}
+		}
+		ok := false
+		if fn.Parent() != nil && idx >= 0 {
+			core.Instrs(fn.Parent(), func(in ssa.Instruction) {
+				if mc, isMC := in.(*ssa.MakeClosure); isMC && mc.Fn == ssa.Value(fn) && idx < len(mc.Bindings) {
+					ok = unmodifiedParamString(r, mc.Bindings[idx], d+1)
+				}
+			})
+		}
+		return ok
+	case *ssa.Alloc:
+		// a parameter spilled because a closure captures it: single store of the parameter
+		n, ok := 0, true
+		for _, ref := range *x.Referrers() {
+			if st, isSt := ref.(*ssa.Store); isSt && st.Addr == ssa.Value(x) {
+				n++
+				if !unmodifiedParamString(r, st.Val, d+1) {
+					ok = false
+				}
+			}
+		}
+		return ok && n == 1
+	case *ssa.UnOp:
+		if x.Op != token.MUL {
+			return false
+		}
+		if ia, isIA := x.X.(*ssa.IndexAddr); isIA {
+			return unmodifiedParamString(r, ia.X, d+1)
+		}
+		return unmodifiedParamString(r, x.X, d+1)
+	case *ssa.Index:
+		return unmodifiedParamString(r, x.X, d+1)
+	case *ssa.ChangeType:
+		return unmodifiedParamString(r, x.X, d+1)
+	}
+	return false
 }
